@@ -149,7 +149,7 @@ static void run_positive(long idx)
     int fam = (int)vr_u(&r, DF_NB); if (fam == DF_RANDOM && vr_chance(&r, 2, 3)) fam = DF_LZ;
     size_t const n = pick_size(&r, g_maxSize);
     uint8_t* src = (uint8_t*)malloc(n + 8); gen_data(&r, src, n, fam);
-    int wlog = (int)vr_range(&r, 10, 21); unsigned const minMatch = (unsigned)vr_range(&r, 3, 7);
+    int wlog = (int)vr_range(&r, 10, 21); unsigned minMatch = (unsigned)vr_range(&r, 3, 7);
     int maxBlock = vr_chance(&r, 1, 3) ? (int)vr_range(&r, 1024, 131072) : 0;
     int const mode = (int)vr_u(&r, 4);
     if (mode == 3 && vr_chance(&r, 1, 2)) maxBlock = (int)vr_range(&r, 1024, 16384);      /* producers are called once per block: many blocks = many producer decisions per frame */
@@ -157,10 +157,14 @@ static void run_positive(long idx)
     int const repSearch = (int)vr_range(&r, 0, 2); int level = (int)vr_range(&r, 1, 12);
     size_t dictLen = 0; uint8_t* dict = NULL;
     int const farDict = mode < 2 && (idx % 8) == 3 && n >= 280000;      /* stratum: offsets whose code lies just above what the dictionary's offset table holds, from the second block on */
+    if (farDict && getenv("VERIF_DBG")) fprintf(stderr, "FARDICT case %ld n=%zu mode=%d\n", idx, n, mode);
     if (farDict) { wlog = (int)vr_range(&r, 19, 21); level = (int)vr_range(&r, 1, 5); maxBlock = 0; dictLen = 8000 + vr_u(&r, 50000); dict = (uint8_t*)malloc(dictLen); vr_fill(&r, dict, dictLen);
         /* block 1: noise with a few near matches and matches into the dictionary tail; later blocks: noise with chunks taken from the START of the dictionary */
-        vr_fill(&r, src, n); for (size_t p = 3000; p + 200 < (128u << 10); p += 2000 + vr_u(&r, 9000)) { size_t const l = 8 + vr_u(&r, 60); if (vr_chance(&r, 1, 2)) memmove(src + p, src + p - 50 - vr_u(&r, 2000), l); else memcpy(src + p, dict + dictLen - l - vr_u(&r, 500), l); }
-        for (size_t p = (128u << 10) + 70000 + vr_u(&r, 40000); p + 400 < n; p += 3000 + vr_u(&r, 20000)) { size_t const l = 16 + vr_u(&r, 200); memcpy(src + p, dict + vr_u(&r, 2000), l); } }
+        vr_fill(&r, src, n); { int const w = (int)vr_u(&r, 3); size_t const lim = w == 1 ? (size_t)(128u << 10) : w == 2 ? n : 0; for (size_t i = 0; i < lim; i++) src[i] &= 0x0F; }     /* 16-symbol literals: Huffman-compressible, and with minMatch 7 almost match-free */
+        minMatch = 7;      /* noise everywhere (blocks emitted raw) / first block compressible through its literals / every block compressible through its literals (few sequences, offset table re-used in repeat mode) */
+        for (size_t p = 3000; p + 200 < (128u << 10); p += 2000 + vr_u(&r, 9000)) { size_t const l = 8 + vr_u(&r, 60); if (vr_chance(&r, 1, 2)) memmove(src + p, src + p - 50 - vr_u(&r, 2000), l); else memcpy(src + p, dict + dictLen - l - vr_u(&r, 500), l); }
+        {   size_t q = 0;      /* every chunk comes from a fresh part of the dictionary start: its only earlier occurrence is in the dictionary, far away */
+            for (size_t p = (128u << 10) + 100000 + vr_u(&r, 30000); p + 400 < n && q + 400 < dictLen / 2; p += 600 + vr_u(&r, 3000)) { size_t const l = 32 + vr_u(&r, 200); memcpy(src + p, dict + q, l); q += l + 8; } } }
     else if (mode < 2 && vr_chance(&r, 1, 3)) { dictLen = vr_chance(&r, 1, 3) ? 1 + vr_u(&r, 200000) : 1 + vr_u(&r, 20000); dict = (uint8_t*)malloc(dictLen); if (n > 16) { for (size_t i = 0; i < dictLen; i++) dict[i] = src[(i * 3) % n]; memcpy(dict, src + vr_u64(&r, n / 2), V_MIN(dictLen, n / 2)); } else gen_data(&r, dict, dictLen, fam); }
     parsecfg C; C.window = (size_t)1 << wlog; C.blockMax = V_MIN((size_t)(maxBlock ? maxBlock : (128 << 10)), C.window); C.minMatch = minMatch; C.explicitDelims = (mode == 0); C.dictLen = dictLen; C.dict = dict; C.style = (int)vr_u(&r, 4);
     size_t const cap = ZSTD_compressBound(n) + 64; uint8_t* dst = (uint8_t*)malloc(cap);
